@@ -17,6 +17,8 @@ Correspondence (real code vs compiled model driver, every observable the propert
   setter    Grid.data setter (own dtype, with and without finite integer mindata/maxdata) against `setData`;
   dict      to_dict (dtype string, no-data text canonicalised) and from_dict of the REAL dictionary against
             `toDict/fromDict`;  np.dtype(str) and the pixel-type regex on generated strings against the tables;
+  externals str()/float()/dtype() of float16 (all 65536 words in the thorough tier), float32, float64 scalars: the facts
+            the theorems take as hypotheses (IOok, NodataPrintable), checked directly;
   clone     clone + random interleavings of item writes, fill and data rebinding on original and clone against the
             array-store model;
   clip      Grid.clip on boxes with both corners inside the extent against `clip` (bit-equal corner, data, parent);
@@ -29,9 +31,10 @@ the coordinates' magnitude; catchment outlet, inlets, area and filled area after
 Cases: dtypes int8..int64, uint8..uint64, float16/32/64 in rotation; shapes 1x1 .. 6x6 (64x64 in the thorough tier);
 cell words = type extremes, sign bit, 2^53+1, 2^62+1, NaN/inf/-0/denormal patterns, then random bits; no-data = same
 pool; corner and cell size = 0, -0, 0.1, 1/3, denormal, max, 1e16/1e22 (repr switches) then random finite bit
-patterns; names/comments printable ASCII with blanks and capitals. Non-trivial = round trip performed and compared.
+patterns; names/comments printable ASCII with blanks and capitals, 15 % of them with line breaks. Non-trivial = round trip performed and compared.
 """
 import io
+import json
 import random
 import re
 import shutil
@@ -213,7 +216,11 @@ def gen_float(rng):
 def gen_text(rng, maxlen=14):
     pool = "abcXYZ 019_-.:#,/()%+=[]'\"" + "  "
     n = rng.choice([0, 1, 3, 8, maxlen])
-    return "".join(rng.choice(pool) for _ in range(n))
+    txt = "".join(rng.choice(pool) for _ in range(n))
+    if rng.random() < 0.15:     # free text may hold line breaks (multi-line comments)
+        i = rng.randint(0, len(txt))
+        txt = txt[:i] + rng.choice(["\n", "\r\n", "\r", "\n\n", "\nNROWS 7\n", "\nx"]) + txt[i:]
+    return txt
 
 
 def gen_shape(ctx, rng):
@@ -356,85 +363,144 @@ def body(ctx):
         return f"load {enc(defname)} {enc(header_text)} " + ("-" if data_bytes is None else "h" + data_bytes.hex())
 
     # ======================================================================= (1) setter, save, load
-    ncase = ctx.scale(30, 300)
+    def saveload_case(g, vals, nodw, tname, shape, it, with_parent):
+        """setter, save, load (little-endian as saved, big-endian as synthesised) on one grid"""
+        t = np.dtype(tname)
+        case = {"dtype": tname, "shape": list(shape), "name": g.name, "comment": g.comment,
+                "xll": repr(float(g.xllcorner)), "yll": repr(float(g.yllcorner)), "csz": repr(float(g.cellsize)),
+                "nodata_word": nodw, "first_words": [int(v) for v in uview(vals).flat[:4]]}
+        cls = data_class(t, vals)
+        # --- data setter
+        gt0 = grid_toks(g)
+        g.data = vals
+        ok = check_bits(ctx, f"setter/data/{cls}", "the data setter changed cell values of the grid's own dtype", vals, g.data, case)
+        ask(f"setdata {gt0} {fmt_mat(vals)}", "grid", obs_real(g), {**case, "op": "setdata"})
+        if not ok:
+            g._data = vals.copy()
+        # parent attributes on a share of the grids, so that the PARENTGRID_ lines are exercised
+        if with_parent:
+            pg = Grid("par ent", 7, 9, cellsize=gen_float(rng), xllcorner=gen_float(rng), yllcorner=gen_float(rng))
+            g.set_parent_attributes(pg, np.int64(rng.randint(0, 4)), np.int64(rng.randint(4, 8)), np.int64(rng.randint(0, 3)), np.int64(rng.randint(3, 6)))
+        # --- save
+        stem = rng.choice(["g", "Grid_A", "a.b"])
+        path = work / f"{stem}.bil"
+        for f in work.glob("*"):
+            if f.is_file():
+                f.unlink()
+        try:
+            g.save(path)
+        except Exception as e:  # noqa
+            ctx.finding(f"save/raises/{tname}", "Grid.save raises on a supported grid", {**case, "error": f"{exc_class(e)}: {e}"[:200]})
+            ctx.count(("save", it), False, "save/error")
+            return
+        htext = path.with_suffix(".hdr").read_text()
+        dbytes = path.read_bytes()
+        ask("save " + grid_toks(g), "save", (canon_header(htext, g), dbytes.hex()), {**case, "op": "save", "header": htext})
+        # --- load
+        how = ["from_header", "from_stream", "from_zip", "from_stringio"][it % 4]
+        try:
+            g2, defname = read_back(path.with_suffix(".hdr"), how)
+        except Exception as e:  # noqa
+            sig = "linebreak_in_text" if any(c in g.name + g.comment for c in "\r\n") else tname
+            ctx.finding(f"saveload/cannot_read_back/{sig}", "a grid written by Grid.save cannot be loaded",
+                        {**case, "how": how, "error": f"{exc_class(e)}: {e}"[:200], "header": htext})
+            ctx.count(("saveload", it), False, "saveload/error")
+            ask(load_request("x", htext, dbytes), "load_err", exc_class(e), {**case, "op": "load", "header": htext})
+            return
+        ask(load_request(defname, htext, dbytes), "load", ("I", obs_real(g2)), {**case, "op": "load", "how": how, "header": htext})
+        check_meta(ctx, "saveload", g, g2, {**case, "how": how, "header": htext})
+        if np.dtype(g2.dtype) == t:
+            check_bits(ctx, f"saveload/data/{cls}", "cell values are not bit-identical after save/load", g.data, g2.data, {**case, "how": how})
+        ctx.count(("saveload", tname, shape, tuple(uview(vals).flat[:6]), nodw), True, f"saveload/{tname}/{how}",
+                  sample={"dtype": tname, "shape": list(shape), "how": how, "header": htext[:400]})
+
+        # --- the same raster stored big-endian (BYTEORDER M)
+        hM = re.sub(r"(?m)^BYTEORDER( +)I$", r"BYTEORDER\1M", htext)
+        pM = work / "bigend.hdr"
+        pM.write_text(hM)
+        bM = g.data.astype(g.data.dtype.newbyteorder(">")).tobytes()
+        pM.with_suffix(".bil").write_bytes(bM)
+        howM = ["from_header", "from_stream", "from_zip"][it % 3]
+        try:
+            g3, defname = read_back(pM, howM)
+        except Exception as e:  # noqa
+            ctx.finding(f"load/byteorder_M/cannot_read/{tname}", "a big-endian raster cannot be loaded",
+                        {**case, "how": howM, "error": f"{exc_class(e)}: {e}"[:200]})
+            ask(load_request("x", hM, bM), "load_err", exc_class(e), {**case, "op": "loadM"})
+            return
+        ask(load_request(defname, hM, bM), "load", ("M", obs_real(g3)), {**case, "op": "loadM", "how": howM, "header": hM})
+        check_meta(ctx, "load/byteorder_M", g, g3, {**case, "how": howM})
+        if np.dtype(g3.dtype) == t:
+            palin = all(bytes(reversed(w.tobytes())) == w.tobytes() for w in g.data.flat)
+            check_bits(ctx, "load/byteorder_M/data", "a big-endian raster (BYTEORDER M) is not decoded with its byte order",
+                       g.data, g3.data, {**case, "how": howM, "palindromic": palin})
+        ctx.count(("loadM", tname, shape, tuple(uview(vals).flat[:6])), t.itemsize > 1, f"loadM/{tname}")
+
+
+    def ilist(x):
+        return "-" if x is None else C.ilist(x)
+
+    def catchment_case(fddata, outlet, inlets, name, idx):
+        nr, nc = fddata.shape
+        fd = Grid("fd " + name, nc, nr, dtype=np.int64, cellsize=gen_float(rng), xllcorner=gen_float(rng), yllcorner=gen_float(rng),
+                  nodata=rng.choice([0, -1, 255]))
+        fd.data = fddata
+        ca = Catchment(name, fd)
+        try:
+            ca.delineate_area(outlet, inlets)
+        except ValueError:
+            ctx.count(("catch", idx), False, "catchment/delineation_error")
+            return False
+        case = {"op": "catchment", "shape": [nr, nc], "outlet": outlet, "inlets": inlets, "flowdir": fd.data.tolist()}
+        try:
+            d = ca.to_dict()
+            cb = Catchment.from_dict(d)
+        except Exception as e:  # noqa
+            ctx.finding("catchment/dict_raises", "Catchment dictionary round trip raises", {**case, "error": f"{exc_class(e)}: {e}"[:200]})
+            return True
+        got_in = None if cb.idxinlets is None else [int(v) for v in cb.idxinlets]
+        want_in = None if ca.idxinlets is None else [int(v) for v in ca.idxinlets]
+        impl = " ".join([enc(cb.name), str(int(cb._idxcell_outlet)), ilist(got_in), ilist(cb._idxcells_area), ilist(cb._idxcells_area_filled)])
+        ask(" ".join(["catch", enc(ca.name), str(int(ca._idxcell_outlet)), ilist(want_in), ilist(ca._idxcells_area), ilist(ca._idxcells_area_filled),
+                      grid_toks(ca.flowdir)]), "catch", (impl, obs_real(cb.flowdir)), case)
+        if int(cb.idxcell_outlet) != int(ca.idxcell_outlet):
+            ctx.finding("catchment/outlet", "outlet changed in the dictionary round trip", case)
+        if got_in != want_in:
+            ctx.finding("catchment/inlets_lost" if got_in is None else "catchment/inlets", "inlets changed in the dictionary round trip",
+                        {**case, "got": got_in, "want": want_in})
+        if [int(v) for v in cb.idxcells_area] != [int(v) for v in ca.idxcells_area] or \
+                [int(v) for v in cb.idxcells_area_filled] != [int(v) for v in ca.idxcells_area_filled]:
+            ctx.finding("catchment/area", "area cells changed in the dictionary round trip", case)
+        check_meta(ctx, "catchment/flowdir", ca.flowdir, cb.flowdir, case)
+        ctx.count(("catch", nr, nc, outlet, tuple(inlets or ()), tuple(fd.data.ravel())), True,
+                  "catchment/" + ("inlets" if want_in else "no_inlets"), sample=case if idx < 3 else None)
+        return True
+
+    # corpus: minimised past failures first (the four defects repaired by the fix: commits)
+    for cf in sorted((C.ROOT / "corpus" / PID).glob("*.json")):
+        cj = json.loads(cf.read_text())
+        if cj.get("kind") == "saveload":
+            t = np.dtype(cj["dtype"])
+            nr, nc = cj["shape"]
+            nod = np.array([cj["nodata_word"]], dtype="u%d" % t.itemsize).view(t)[0]
+            g = Grid(cj.get("name", "corpus"), nc, nr, cellsize=cj.get("csz", 1.0), xllcorner=cj.get("xll", 0.0),
+                     yllcorner=cj.get("yll", 0.0), dtype=t.type, nodata=nod, comment=cj.get("comment", ""))
+            vals = np.array(cj["words"], dtype="u%d" % t.itemsize).view(t).reshape(nr, nc)
+            saveload_case(g, vals, cj["nodata_word"], cj["dtype"], (nr, nc), 0, False)
+        elif cj.get("kind") == "catchment":
+            catchment_case(np.array(cj["flowdir"], dtype=np.int64), cj["outlet"], cj["inlets"], "corpus", 99)
+
+    ncase = ctx.scale(80, 600)
     it = 0
     for rep in range(ncase):
         for tname in DTYPES:
             it += 1
-            t = np.dtype(tname)
             shape = gen_shape(ctx, rng)
             g, vals, nodw = make_grid(Grid, rng, tname, shape)
-            case = {"dtype": tname, "shape": list(shape), "name": g.name, "comment": g.comment,
-                    "xll": repr(float(g.xllcorner)), "yll": repr(float(g.yllcorner)), "csz": repr(float(g.cellsize)),
-                    "nodata_word": nodw, "first_words": [int(v) for v in uview(vals).flat[:4]]}
-            cls = data_class(t, vals)
-            # --- data setter
-            gt0 = grid_toks(g)
-            g.data = vals
-            ok = check_bits(ctx, f"setter/data/{cls}", "the data setter changed cell values of the grid's own dtype", vals, g.data, case)
-            ask(f"setdata {gt0} {fmt_mat(vals)}", "grid", obs_real(g), {**case, "op": "setdata"})
-            if not ok:
-                g._data = vals.copy()
-            # parent attributes on a share of the grids, so that the PARENTGRID_ lines are exercised
-            if rng.random() < 0.15:
-                pg = Grid("par ent", 7, 9, cellsize=gen_float(rng), xllcorner=gen_float(rng), yllcorner=gen_float(rng))
-                g.set_parent_attributes(pg, np.int64(rng.randint(0, 4)), np.int64(rng.randint(4, 8)), np.int64(rng.randint(0, 3)), np.int64(rng.randint(3, 6)))
-            # --- save
-            stem = rng.choice(["g", "Grid_A", "a.b"])
-            path = work / f"{stem}.bil"
-            for f in work.glob("*"):
-                if f.is_file():
-                    f.unlink()
-            try:
-                g.save(path)
-            except Exception as e:  # noqa
-                ctx.finding(f"save/raises/{tname}", "Grid.save raises on a supported grid", {**case, "error": f"{exc_class(e)}: {e}"[:200]})
-                ctx.count(("save", it), False, "save/error")
-                continue
-            htext = path.with_suffix(".hdr").read_text()
-            dbytes = path.read_bytes()
-            ask("save " + grid_toks(g), "save", (canon_header(htext, g), dbytes.hex()), {**case, "op": "save", "header": htext})
-            # --- load
-            how = ["from_header", "from_stream", "from_zip", "from_stringio"][it % 4]
-            try:
-                g2, defname = read_back(path.with_suffix(".hdr"), how)
-            except Exception as e:  # noqa
-                ctx.finding(f"saveload/cannot_read_back/{tname}", "a grid written by Grid.save cannot be loaded",
-                            {**case, "how": how, "error": f"{exc_class(e)}: {e}"[:200], "header": htext})
-                ctx.count(("saveload", it), False, "saveload/error")
-                ask(load_request("x", htext, dbytes), "load_err", exc_class(e), {**case, "op": "load", "header": htext})
-                continue
-            ask(load_request(defname, htext, dbytes), "load", ("I", obs_real(g2)), {**case, "op": "load", "how": how, "header": htext})
-            check_meta(ctx, "saveload", g, g2, {**case, "how": how, "header": htext})
-            if np.dtype(g2.dtype) == t:
-                check_bits(ctx, f"saveload/data/{cls}", "cell values are not bit-identical after save/load", g.data, g2.data, {**case, "how": how})
-            ctx.count(("saveload", tname, shape, tuple(uview(vals).flat[:6]), nodw), True, f"saveload/{tname}/{how}",
-                      sample={"dtype": tname, "shape": list(shape), "how": how, "header": htext[:400]})
-
-            # --- the same raster stored big-endian (BYTEORDER M)
-            hM = re.sub(r"(?m)^BYTEORDER( +)I$", r"BYTEORDER\1M", htext)
-            pM = work / "bigend.hdr"
-            pM.write_text(hM)
-            bM = g.data.astype(g.data.dtype.newbyteorder(">")).tobytes()
-            pM.with_suffix(".bil").write_bytes(bM)
-            howM = ["from_header", "from_stream", "from_zip"][it % 3]
-            try:
-                g3, defname = read_back(pM, howM)
-            except Exception as e:  # noqa
-                ctx.finding(f"load/byteorder_M/cannot_read/{tname}", "a big-endian raster cannot be loaded",
-                            {**case, "how": howM, "error": f"{exc_class(e)}: {e}"[:200]})
-                ask(load_request("x", hM, bM), "load_err", exc_class(e), {**case, "op": "loadM"})
-                continue
-            ask(load_request(defname, hM, bM), "load", ("M", obs_real(g3)), {**case, "op": "loadM", "how": howM, "header": hM})
-            check_meta(ctx, "load/byteorder_M", g, g3, {**case, "how": howM})
-            if np.dtype(g3.dtype) == t:
-                palin = all(bytes(reversed(w.tobytes())) == w.tobytes() for w in g.data.flat)
-                check_bits(ctx, "load/byteorder_M/data", "a big-endian raster (BYTEORDER M) is not decoded with its byte order",
-                           g.data, g3.data, {**case, "how": howM, "palindromic": palin})
-            ctx.count(("loadM", tname, shape, tuple(uview(vals).flat[:6])), t.itemsize > 1, f"loadM/{tname}")
+            saveload_case(g, vals, nodw, tname, shape, it, rng.random() < 0.15)
 
     # ======================================================================= (2) bounded integer grids (setter + load)
-    for rep in range(ctx.scale(60, 600)):
+    for rep in range(ctx.scale(150, 1500)):
         tname = rng.choice(DTYPES[:8])
         t = np.dtype(tname)
         info = np.iinfo(t)
@@ -510,7 +576,7 @@ def body(ctx):
         data = arr.astype(t.newbyteorder(">" if bo == "M" else "<")).tobytes()
         return text, data, bo, arr, eol
 
-    for rep in range(ctx.scale(220, 2200)):
+    for rep in range(ctx.scale(600, 5000)):
         tname = DTYPES[rep % len(DTYPES)]
         t = np.dtype(tname)
         nr, nc = gen_shape(ctx, rng)
@@ -602,7 +668,7 @@ def body(ctx):
         text = "\n".join(lines) + "\n"
         return kind, t, text, nbytes
 
-    for rep in range(ctx.scale(300, 3000)):
+    for rep in range(ctx.scale(800, 6000)):
         kind, t, text, nbytes = malformed()
         data = bytes(rng.getrandbits(8) for _ in range(nbytes)) if nbytes is not None else None
         case = {"op": "malformed", "kind": kind, "header": text, "nbytes": nbytes}
@@ -619,13 +685,11 @@ def body(ctx):
             ask(load_request("no_name", text, data), "load_err", exc_class(e), case)
             ctx.count(("malformed", kind, text), True, f"malformed/{kind}/" + exc_class(e))
             continue
-        if t.kind == "f" and kind == "nodata_range" and np.dtype(g2.dtype).itemsize < 8:
-            skip = ()
         ask(load_request("no_name", text, data), "load", (None, obs_real(g2)), case)
         ctx.count(("malformed", kind, text), True, f"malformed/{kind}/ok")
 
     # ======================================================================= (4) dictionaries, dtype strings, pixel types
-    for rep in range(ctx.scale(30, 300)):
+    for rep in range(ctx.scale(50, 400)):
         for tname in DTYPES:
             t = np.dtype(tname)
             shape = gen_shape(ctx, rng)
@@ -681,15 +745,40 @@ def body(ctx):
             ctx.count(("dtype", s), impl != "none", "dtype_str")
     pixs = ["signedint", "unsignedint", "float", "int", "uint", "signed", "unsigned", "nt", "loat", "signedinteger", "", "intnt",
             "floatloat", "nsignedint", "unsignedintx", "signedsigned", "xsigned", "nsignedintnsignedint", "byte", "ntloat", "lloatt"]
-    for _ in range(ctx.scale(60, 600)):
+    for _ in range(ctx.scale(150, 1500)):
         pixs.append("".join(rng.choice(["n", "s", "i", "g", "e", "d", "t", "l", "o", "a", "f", "u", "signed", "nt", "loat", "unsignedint", "int"])
                             for _ in range(rng.randint(1, 6))))
     for s in pixs:
         ask(f"pix [{enc(s)}]", "plain", enc(re.sub("nsignedint$|^signed|nt|loat", "", s)), {"op": "pixeltype", "str": s})
         ctx.count(("pix", s), True, "pixel_regex")
 
+    # ======================================================================= (4b) the external facts the theorems assume
+    # IOok / NodataPrintable: printing has no white space, is never an integer literal for floats, and reads back exactly
+    def text_facts(tname, w):
+        t = np.dtype(tname)
+        sc = np.array([w], dtype="u%d" % t.itemsize).view(t)[0]
+        txt = "{}".format(sc)
+        ok = not any(ch.isspace() for ch in txt) and txt != ""
+        try:
+            int(txt)
+            ok = False
+        except ValueError:
+            pass
+        back = t.type(float(txt))
+        same = (back != back and sc != sc) or word_of(back, t) == w
+        if not (ok and same):
+            ctx.finding(f"saveload/nodata/float/text_roundtrip_{tname}", "a float scalar does not survive str() / float() / dtype()",
+                        {"dtype": tname, "word": w, "text": txt, "back_word": word_of(back, t)})
+        ctx.count(("text", tname, w), True, "external/float_text")
+    f16 = range(0, 1 << 16) if ctx.thorough else [rng.getrandbits(16) for _ in range(2000)] + special_words("float16")
+    for w in f16:
+        text_facts("float16", w)
+    for tname in ("float32", "float64"):
+        for w in special_words(tname) + [rng.getrandbits(8 * np.dtype(tname).itemsize) for _ in range(ctx.scale(3000, 30000))]:
+            text_facts(tname, w)
+
     # ======================================================================= (5) clone independence under mutation
-    for rep in range(ctx.scale(120, 1200)):
+    for rep in range(ctx.scale(300, 3000)):
         tname = rng.choice(DTYPES)
         t = np.dtype(tname)
         nr, nc = gen_shape(ctx, rng)
@@ -731,7 +820,7 @@ def body(ctx):
         ctx.count(("store", tname, tuple(ops)), True, "clone/store")
 
     # ======================================================================= (6) clip
-    for rep in range(ctx.scale(100, 1000)):
+    for rep in range(ctx.scale(300, 3000)):
         tname = rng.choice(DTYPES)
         t = np.dtype(tname)
         nr, nc = (rng.randint(1, 8), rng.randint(1, 8)) if not (ctx.thorough and rng.random() < 0.05) else (40, 33)
@@ -807,54 +896,26 @@ def body(ctx):
     # ======================================================================= (7) catchments
     codes = [int(c) for c in FLOWDIRCODE.ravel() if c != 0]
     ndone = 0
-    for rep in range(ctx.scale(50, 500) * 3):
-        if ndone >= ctx.scale(50, 500):
+    for rep in range(ctx.scale(100, 800) * 3):
+        if ndone >= ctx.scale(100, 800):
             break
         nr, nc = rng.randint(1, 6), rng.randint(1, 6)
-        fd = Grid(gen_text(rng) or "fd", nc, nr, dtype=np.int64, cellsize=gen_float(rng), xllcorner=gen_float(rng), yllcorner=gen_float(rng),
-                  nodata=rng.choice([0, -1, 255]))
-        fd.data = np.array([[rng.choice(codes + [0]) for _ in range(nc)] for _ in range(nr)], dtype=np.int64)
-        ca = Catchment(gen_text(rng) or "c", fd)
+        fddata = np.array([[rng.choice(codes + [0]) for _ in range(nc)] for _ in range(nr)], dtype=np.int64)
         outlet = rng.randrange(nr * nc)
-        with_inlets = rng.random() < 0.6
-        try:
-            ca.delineate_area(outlet)
-            inlets = None
-            if with_inlets:
-                cand = [int(c) for c in ca.idxcells_area if int(c) != outlet]
-                inlets = rng.sample(cand, min(len(cand), rng.randint(0, 2))) if rng.random() < 0.8 else [rng.randrange(nr * nc)]
-                ca = Catchment(ca.name, fd)
-                ca.delineate_area(outlet, inlets)
-        except ValueError:
-            ctx.count(("catch", rep), False, "catchment/delineation_error")
-            continue
-        ndone += 1
-        case = {"op": "catchment", "shape": [nr, nc], "outlet": outlet, "inlets": inlets, "flowdir": fd.data.tolist()}
-        try:
-            d = ca.to_dict()
-            cb = Catchment.from_dict(d)
-        except Exception as e:  # noqa
-            ctx.finding("catchment/dict_raises", "Catchment dictionary round trip raises", {**case, "error": f"{exc_class(e)}: {e}"[:200]})
-            continue
-
-        def ilist(x):
-            return "-" if x is None else C.ilist(x)
-        got_in = None if cb.idxinlets is None else [int(v) for v in cb.idxinlets]
-        want_in = None if ca.idxinlets is None else [int(v) for v in ca.idxinlets]
-        impl = " ".join([enc(cb.name), str(int(cb._idxcell_outlet)), ilist(got_in), ilist(cb._idxcells_area), ilist(cb._idxcells_area_filled)])
-        ask(" ".join(["catch", enc(ca.name), str(int(ca._idxcell_outlet)), ilist(want_in), ilist(ca._idxcells_area), ilist(ca._idxcells_area_filled),
-                      grid_toks(ca.flowdir)]), "catch", (impl, obs_real(cb.flowdir)), case)
-        if int(cb.idxcell_outlet) != int(ca.idxcell_outlet):
-            ctx.finding("catchment/outlet", "outlet changed in the dictionary round trip", case)
-        if got_in != want_in:
-            ctx.finding("catchment/inlets_lost" if got_in is None else "catchment/inlets", "inlets changed in the dictionary round trip",
-                        {**case, "got": got_in, "want": want_in})
-        if [int(v) for v in cb.idxcells_area] != [int(v) for v in ca.idxcells_area] or \
-                [int(v) for v in cb.idxcells_area_filled] != [int(v) for v in ca.idxcells_area_filled]:
-            ctx.finding("catchment/area", "area cells changed in the dictionary round trip", case)
-        check_meta(ctx, "catchment/flowdir", ca.flowdir, cb.flowdir, case)
-        ctx.count(("catch", nr, nc, outlet, tuple(inlets or ()), tuple(fd.data.ravel())), True,
-                  "catchment/" + ("inlets" if want_in else "no_inlets"), sample=case if ndone < 3 else None)
+        inlets = None
+        if rng.random() < 0.6:
+            # inlets: cells of the inlet-free area (so that they cut something off), sometimes an arbitrary cell
+            probe = Catchment("probe", Grid("p", nc, nr, dtype=np.int64))
+            probe.flowdir.data = fddata
+            try:
+                probe.delineate_area(outlet)
+            except ValueError:
+                ctx.count(("catch", rep), False, "catchment/delineation_error")
+                continue
+            cand = [int(c) for c in probe.idxcells_area if int(c) != outlet]
+            inlets = rng.sample(cand, min(len(cand), rng.randint(0, 2))) if rng.random() < 0.8 else [rng.randrange(nr * nc)]
+        if catchment_case(fddata, outlet, inlets, gen_text(rng) or "c", ndone):
+            ndone += 1
 
     # ======================================================================= correspondence
     replies = ctx.lean.ask(reqs)
@@ -930,7 +991,7 @@ def body(ctx):
     ctx.assumptions += [
         "float printing and reading (str(np.float64), float()), conversions between float formats, ndarray.tofile / np.fromfile, "
         "copy.deepcopy, zipfile and the file system are external: exercised end to end and compared, not proved",
-        "header text is printable ASCII without line breaks inside names and comments",
+        "header text is printable ASCII (names and comments may hold line breaks)",
         "integer tokens with underscores or non-ASCII digits are not generated (python int() accepts them, the model does not)",
     ]
 
